@@ -62,8 +62,8 @@ LEVEL_TEXT["C04"] = ("Theorems for every n, every repetition count r (so also th
                      "monotone in r, lower bounds antitone along inclusion, upper ≤ every known sub-coalition's value and ≤ v(T) − lower(T∖S). Proof = refinement of the r+1 rounds to the spec "
                      "sequence samB / samUp + spec mathematics. Tie: bounds stream with sam:r, r ∈ 0..10, on coverage / budget / XOS games, all knowledge sets n ≤ 4.")
 LEVEL_TEXT["C07"] = ("Theorems for every n: more knowledge (of the same game of the class) gives row-wise nested intervals for sa, sac and sam r; along every reveal path widths never grow; each of "
-                     "exploitability (via the C05 identity), l1, l∞ and l2² is non-increasing, non-negative and zero at full knowledge. l2 = sqrt(l2²): monotonicity of correctly rounded sqrt is "
-                     "trusted. Tie: every lattice edge between computed knowledge sets at n ≤ 4 on the real code + gap functions compared with the model on nested chains.")
+                     "exploitability (via the C05 identity), l1, l∞ and l2² is non-increasing, non-negative and zero at full knowledge. The l2 norm itself, √(l2²) over the reals, is proved non-increasing / non-negative / zero-iff-degenerate in Props/C07L2 (what stays trusted is that np.sqrt is the "
+                     "correctly rounded real square root). Tie: every lattice edge between computed knowledge sets at n ≤ 4 on the real code + gap functions compared with the model on nested chains.")
 LEVEL_TEXT["C08"] = ("Theorems for every n and all three computers: the result is a function of (known flags, values of known rows) alone whatever the stale rows hold; recomputing is the identity; "
                      "two admissible histories ending in the same knowledge give the same table; reveal∘compute∘un-reveal∘compute restores the whole table. Tie: stale-state histories "
                      "(scalar and bulk garbage writes, resets, un-reveals) on the real objects vs the model, with fresh-object, idempotence and undo oracles on the real code.")
